@@ -71,7 +71,7 @@ func c06(c *core.Ctx) {
 		}
 		// actions: every call of a TxProcessor method other than the verification family, and every call that is handed the gas pool.
 		// (Plain reads such as tx.From() or p.am.GetAccount(..).GetBalance() may be moved freely.)
-		verifyFamily := []*types.Func{guard, proc("VerifyAssetTx"), proc("verifyTransactionSigs"), proc("checkSignersWeight")}
+		verifyFamily := []*types.Func{guard, c.MethodIfExists(trx+".TxProcessor", "VerifyAssetTx"), proc("verifyTransactionSigs"), proc("checkSignersWeight")}
 		procType := c.Named(trx + ".TxProcessor")
 		gpool := stateOf(fn.Params[1])
 		var actions []ssa.Instruction
@@ -126,6 +126,15 @@ func c06(c *core.Ctx) {
 			a := c4Args(g)
 			c.Check("VerifyTxBeforeApply:verifyTransactionSigs(tx)", "value-flow", len(a) == 1 && isParam(vfn, 1, a[0]), g.Pos(), "the signatures of the given transaction are verified")
 		}
+		// ... on every way to acceptance: no possibly-successful return of VerifyTxBeforeApply around the signature verification (a
+		// transaction type that leaves through the asset pre-check alone is executed unsigned)
+		sigPass := passers(vfn, proc("verifyTransactionSigs"), 2)
+		skipping := skippingReturns(vfn, sigPass, nil)
+		pos := vfn.Pos()
+		if len(skipping) > 0 {
+			pos = skipping[0].Pos()
+		}
+		c.Check("VerifyTxBeforeApply:no-acceptance-around-verifyTransactionSigs", "must-pass-through", len(sigPass) > 0 && len(skipping) == 0, pos, "every return of VerifyTxBeforeApply that may report success has passed verifyTransactionSigs (%d return(s) around it)", len(skipping))
 
 		// box: sub transactions run through applyTx, each of them, failures abort
 		rb := c.Fn(trx + ".BoxTxEnv.RunBoxTxs")
